@@ -4,7 +4,7 @@
    operations; the composed model run_C18 against ok_C18. *)
 From VM Require Import Prelude.MachInt Prelude.Outcome Prelude.Tok Prelude.C1314List Spec.C18 Suite.C18.
 From VM Require Impl.VolMem Impl.Guest Impl.Dirty Impl.Io Impl.IoGuest.
-From VM Require Proofs.C04.
+From VM Require Proofs.C04 Impl.Address.
 
 
 (* ---------- VolMem at zero *)
@@ -794,6 +794,206 @@ Proof.
 Qed.
 
 
+(* group 4: zero-count stream forms at guest level *)
+Lemma ioregs_host_ok regs : forall off, off + total regs <= 5 * 65536 -> Forall host_ok (ioregs regs off).
+Proof.
+  induction regs as [|p t IH]; intros off H; cbn [ioregs]; constructor.
+  - unfold host_ok. cbn [IoGuest.g_moff IoGuest.g_len]. unfold IoGuest.HBASE. change (2 ^ 40) with 1099511627776.
+    rewrite W64_val. cbn [total fold_right] in H. unfold total in H. lia.
+  - apply IH. cbn [total fold_right] in H. unfold total in *. lia.
+Qed.
+Lemma contains_eq st sz a : (st <=? a) && (a - st <? sz) = (st <=? a) && (a <? st + sz).
+Proof.
+  destruct (N.leb_spec st a); cbn [andb]; [|reflexivity].
+  destruct (N.ltb_spec (a - st) sz), (N.ltb_spec a (st + sz)); try reflexivity; lia.
+Qed.
+Lemma find_region_ioregs regs a : forall off,
+  match region_of regs a with
+  | Some _ => exists r, IoGuest.find_region (ioregs regs off) a = Some r
+  | None => IoGuest.find_region (ioregs regs off) a = None end.
+Proof.
+  unfold region_of, IoGuest.find_region. induction regs as [|p t IH]; intros off; cbn [ioregs find]; [reflexivity|].
+  unfold IoGuest.contains at 1 3. cbn [IoGuest.g_start IoGuest.g_len]. rewrite contains_eq.
+  destruct ((fst p <=? a) && (a <? fst p + snd p)); [eexists; reflexivity|]. apply IH.
+Qed.
+
+Lemma run_mem_stream_g c : wf_case c = true -> is_stream_op (c_op c) = true -> c_layer c = LGuest ->
+  mem_ok c (run_mem c).
+Proof.
+  intros W S L. destruct (wf_case_inv c W) as [H4 [Hr [_ [Ha [_ [Hk _]]]]]].
+  unfold run_mem. replace (is_bytes_op (c_op c)) with false by (destruct (c_op c); try discriminate; reflexivity).
+  rewrite S. unfold run_stream. cbv zeta. rewrite L.
+  set (rd := is_read_stream (c_op c)). set (st0 := stream0 rd c). set (h := heap0 (c_regs c)).
+  assert (Hst : st_wf st0) by (apply st_wf_stream0; exact Hk).
+  assert (HL : Forall host_ok (ioregs (c_regs c) 0)).
+  { apply ioregs_host_ok. destruct (regs_ok_bounds _ _ Hr) as [T _]. lia. }
+  rewrite (g_upto_zero rd (c_mode c) (c_sk c) _ (c_addr c) st0 h Hst HL).
+  pose proof (find_region_ioregs (c_regs c) (c_addr c) 0) as F.
+  destruct (region_of (c_regs c) (c_addr c)) as [p|] eqn:R.
+  - destruct F as [r F]. rewrite F.
+    destruct (is_exact (c_op c)); cbn [IoGuest.gm_exact_of omap bind of_outcome snd fst]; try rewrite N.eqb_refl;
+      rewrite ext_of_refl; apply mem_ok_r_ok; reflexivity.
+  - rewrite F.
+    assert (M : must_succeed c = false).
+    { unfold must_succeed, valid_addr. rewrite L, R. destruct (c_op c); try discriminate; reflexivity. }
+    destruct (is_exact (c_op c)); cbn [IoGuest.gm_exact_of omap bind of_outcome snd fst];
+      apply mem_ok_r_err; [reflexivity|exact M|reflexivity|exact M].
+Qed.
+
+(* group 5: accessor-shaped entry points (ZST copies, empty arrays, refs, slice-to-slice copies):
+   the layer's get_slice, then the accessor *)
+Lemma mem_ok_ok c n h : h = heap0 (c_regs c) -> (count_stated c = true -> n = 0) -> mem_ok c (r_ok n 0 h).
+Proof. intros E Hn. subst. repeat split; cbn; try reflexivity; [discriminate|exact Hn]. Qed.
+
+Lemma shape_gmem regs : Guest.shape (gmem regs) = regs.
+Proof.
+  unfold Guest.shape, gmem. rewrite map_map. rewrite <- (map_id regs) at 2. apply map_ext. intros [st sz].
+  unfold Guest.rlen, Guest.lenN. cbn [Guest.rstart Guest.rbytes fst snd]. rewrite repeat_length, N2Nat.id. reflexivity.
+Qed.
+Lemma to_region_addr_eq st ln a :
+  Guest.r_to_region_addr st ln a = if (st <=? a) && (a <? st + ln) then Some (a - st) else None.
+Proof.
+  rewrite <- contains_eq. unfold Guest.r_to_region_addr, Address.a_checked_offset_from, checked_sub, Guest.r_check_address,
+    Guest.r_address_in_range.
+  destruct (st <=? a); cbn [andb]; reflexivity.
+Qed.
+Lemma find_idx_region_of regs a : forall k,
+  match region_of regs a with
+  | Some p => exists j, Guest.find_idx regs a k = Some (k + j)%nat /\ nth j regs (0, 0) = p /\
+                        (fst p <=? a) && (a <? fst p + snd p) = true
+  | None => Guest.find_idx regs a k = None end.
+Proof.
+  unfold region_of. induction regs as [|p t IH]; intros k; cbn [find Guest.find_idx]; [reflexivity|].
+  rewrite to_region_addr_eq. destruct ((fst p <=? a) && (a <? fst p + snd p)) eqn:E.
+  - exists O. rewrite Nat.add_0_r. repeat split. exact E.
+  - specialize (IH (S k)). destruct (find _ t) as [q|].
+    + destruct IH as [j [H1 [H2 H3]]]. exists (S j). rewrite H1. split; [f_equal; lia|]. split; assumption.
+    + exact IH.
+Qed.
+
+Lemma get_sl_shape c : wf_case c = true ->
+  exists g, get_sl c = Val g /\
+    match g with inl (_, sl) => VolMem.vs_size sl = nbytes18 c | inr _ => valid_addr c = false end.
+Proof.
+  intros W. destruct (wf_case_inv c W) as [H4 [Hr [Hl [Ha _]]]].
+  destruct (regs_ok_bounds _ _ Hr) as [T B].
+  assert (SR : forall sz (s : VolMem.vslice), VolMem.vs_size s = sz -> sz <= 65536 ->
+            match VolMem.vs_get_slice s (c_addr c) (nbytes18 c) with
+            | VolMem.Ok sl => VolMem.vs_size sl = nbytes18 c
+            | VolMem.Err _ => (c_addr c <? sz) && (c_addr c + nbytes18 c <=? sz) = false end).
+  { intros sz s Hs Hsz. unfold VolMem.vs_get_slice, VolMem.vs_subslice, VolMem.compute_end_offset, VolMem.compute_offset, checked_add.
+    rewrite Hs. destruct (N.ltb_spec (c_addr c + nbytes18 c) W64) as [X|X].
+    - destruct (N.ltb_spec sz (c_addr c + nbytes18 c)) as [Y|Y]; [|reflexivity].
+      destruct (N.leb_spec (c_addr c + nbytes18 c) sz); [lia|]. apply andb_false_r.
+    - destruct (N.leb_spec (c_addr c + nbytes18 c) sz) as [Y|Y]; [|apply andb_false_r].
+      destruct (N.ltb_spec (c_addr c) sz) as [Z|Z]; [|reflexivity].
+      exfalso. rewrite W64_val in X. lia. }
+  unfold get_sl, valid_addr. destruct (c_layer c) eqn:L.
+  - eexists. split; [reflexivity|]. specialize (SR (c_sub_len c) (cslice c)).
+    assert (Hs : VolMem.vs_size (cslice c) = c_sub_len c) by (unfold cslice; rewrite L; reflexivity).
+    assert (Hb : c_sub_len c <= 65536).
+    { unfold reg_at in Hl. destruct (B (c_ri c)) as [B1 _]. lia. }
+    specialize (SR Hs Hb).
+    destruct (VolMem.vs_get_slice (cslice c) (c_addr c) (nbytes18 c)); exact SR.
+  - eexists. split; [reflexivity|].
+    set (s := {| VolMem.vs_addr := moff (c_regs c) (c_ri c); VolMem.vs_size := snd (reg_at c) |}).
+    assert (Hb : snd (reg_at c) <= 65536) by (unfold reg_at; destruct (B (c_ri c)) as [B1 _]; exact B1).
+    specialize (SR (snd (reg_at c)) s eq_refl Hb).
+    change (VolMem.mr_get_slice _ (c_addr c) (nbytes18 c)) with (VolMem.vs_get_slice s (c_addr c) (nbytes18 c)).
+    destruct (VolMem.vs_get_slice s (c_addr c) (nbytes18 c)); cbn [VolMem.gm_res]; exact SR.
+  - unfold Guest.gm_get_slice, Guest.gm_to_region_addr, Guest.find_lin. rewrite shape_gmem.
+    pose proof (find_idx_region_of (c_regs c) (c_addr c) O) as F.
+    destruct (region_of (c_regs c) (c_addr c)) as [[st sz]|] eqn:R.
+    + destruct F as [j [F1 [F2 F3]]]. rewrite F1. cbn [Nat.add]. unfold Guest.dreg. rewrite F2. cbn [fst snd] in *.
+      rewrite to_region_addr_eq, F3. cbn [bind]. rewrite F2. cbn [snd]. apply andb_true_iff in F3. destruct F3 as [F3 F4].
+      apply N.leb_le in F3. apply N.ltb_lt in F4.
+      assert (Hsz : sz <= 65536) by (destruct (B j) as [B1 _]; rewrite F2 in B1; exact B1).
+      unfold Guest.reg_get_slice, checked_add.
+      assert (Hnb : nbytes18 c < 2 ^ 32).
+      { destruct (wf_case_inv c W) as [_ [_ [_ [_ [Hn [_ P]]]]]]. change (2 ^ 32) with 4294967296.
+        unfold nbytes18. destruct (c_op c) eqn:Op; try lia.
+        - unfold params_ok in P. rewrite Op in P. apply orb_true_iff in P. destruct P as [P|P].
+          + apply andb_true_iff in P. destruct P as [P _]. apply N.eqb_eq in P. rewrite P. lia.
+          + apply andb_true_iff in P. destruct P as [P _]. apply andb_true_iff in P. destruct P as [P _].
+            apply N.eqb_eq in P. rewrite P. lia.
+        - unfold params_ok in P. rewrite Op in P. apply orb_true_iff in P. destruct P as [P|P].
+          + apply andb_true_iff in P. destruct P as [P _]. apply N.eqb_eq in P. rewrite P. lia.
+          + apply andb_true_iff in P. destruct P as [P _]. apply andb_true_iff in P. destruct P as [P _].
+            apply N.eqb_eq in P. rewrite P. lia. }
+      change (2 ^ 32) with 4294967296 in Hnb.
+      destruct (N.ltb_spec (c_addr c - st + nbytes18 c) W64) as [X|X]; [|rewrite W64_val in X; lia].
+      destruct (N.ltb_spec sz (c_addr c - st + nbytes18 c)) as [Y|Y].
+      * eexists. split; [reflexivity|]. cbn beta iota. apply N.leb_gt. lia.
+      * eexists. split; [reflexivity|]. reflexivity.
+    + rewrite F. cbn [bind]. eexists. split; [reflexivity|]. reflexivity.
+Qed.
+
+Lemma skipn_repeat {A} (x : A) : forall n k, skipn n (repeat x k) = repeat x (k - n).
+Proof. induction n as [|n IH]; intros [|k]; cbn [skipn repeat Nat.sub]; try reflexivity. apply IH. Qed.
+Lemma va_read_loop_zst h t : VolMem.ty_size t = 0 -> forall k p, VolMem.va_read_loop h t p k = repeat 0 k.
+Proof.
+  intros H k. induction k as [|k IH]; intros p; cbn [VolMem.va_read_loop repeat]; [reflexivity|].
+  rewrite H, h_read_0, from_bytes_nil, IH. reflexivity.
+Qed.
+Lemma va_copy_to_zst_zeros m h a t k : VolMem.ty_size t = 0 ->
+  exists n, VolMem.va_copy_to m h a t (repeat 0 k) = Val (repeat 0 k, n).
+Proof.
+  intros H. unfold VolMem.va_copy_to. rewrite H. replace (0 =? 1) with false by reflexivity.
+  rewrite pmul_zero_r. cbn [bind]. eexists. f_equal. f_equal.
+  rewrite va_read_loop_zst by exact H. rewrite C04.dropN_skipn, skipn_repeat, <- repeat_app. f_equal.
+  unfold VolMem.len. rewrite repeat_length. lia.
+Qed.
+
+Lemma params_esz c : params_ok c = true -> (c_op c = ZArrCopyTo \/ c_op c = ZArrCopyFrom) -> c_esz c <= 8.
+Proof.
+  unfold params_ok. intros H [Hop|Hop]; rewrite Hop in H; apply orb_true_iff in H; destruct H as [H|H].
+  1,3: apply andb_true_iff in H; destruct H as [H _]; apply N.eqb_eq in H; lia.
+  all: apply andb_true_iff in H; destruct H as [_ H]; repeat (apply orb_true_iff in H; destruct H as [H|H]);
+       apply N.eqb_eq in H; lia.
+Qed.
+
+Lemma run_mem_acc c : wf_case c = true -> is_bytes_op (c_op c) = false -> is_stream_op (c_op c) = false ->
+  mem_ok c (run_mem c).
+Proof.
+  intros W Bf Sf. destruct (wf_case_inv c W) as [_ [_ [_ [_ [Hn [_ P]]]]]].
+  unfold run_mem. rewrite Bf, Sf. unfold run_acc. cbv zeta.
+  destruct (get_sl_shape c W) as [g [G Sh]]. rewrite G. cbn [bind].
+  set (h := heap0 (c_regs c)). set (buf := repeat 0 (N.to_nat (c_k c))).
+  destruct g as [[i sl]|code].
+  2:{ cbn [of_outcome]. apply mem_ok_r_err; [reflexivity|]. unfold must_succeed.
+      destruct (c_op c); try discriminate; exact Sh. }
+  destruct (c_op c) eqn:Op; try discriminate.
+  - (* copy_to::<[T;0]> *)
+    rewrite (vs_copy_to_zst (c_mode c) h sl ZT buf eq_refl). cbn [bind of_outcome fst snd].
+    replace (list_eqb buf buf) with true by (symmetry; apply list_eqb_eq; reflexivity).
+    apply mem_ok_ok; [reflexivity|]. unfold count_stated. rewrite Op. discriminate.
+  - rewrite (vs_copy_from_zst (c_mode c) h sl ZT buf eq_refl). cbn [bind of_outcome]. apply mem_ok_r_ok. reflexivity.
+  - (* array copy_to *)
+    unfold nbytes18 in Sh. rewrite Op in Sh.
+    rewrite (get_array_ref_zero sl (c_esz c) (c_n c) Sh Hn (params_esz c P (or_introl Op))). cbn [bind].
+    destruct (params_arr c P (or_introl Op)) as [Z|Z].
+    + destruct (va_copy_to_zst_zeros (c_mode c) h {| VolMem.va_addr := VolMem.vs_addr sl + 0; VolMem.va_nelem := c_n c |}
+                  (ety c) (N.to_nat (c_k c)) Z) as [n E].
+      fold buf in E. rewrite E. cbn [bind of_outcome fst snd].
+      replace (list_eqb buf buf) with true by (symmetry; apply list_eqb_eq; reflexivity).
+      apply mem_ok_ok; [reflexivity|]. unfold count_stated. rewrite Op. discriminate.
+    + rewrite Z, va_copy_to_n0. cbn [bind of_outcome fst snd].
+      replace (list_eqb buf buf) with true by (symmetry; apply list_eqb_eq; reflexivity).
+      apply mem_ok_r_ok. reflexivity.
+  - (* array copy_from *)
+    unfold nbytes18 in Sh. rewrite Op in Sh.
+    rewrite (get_array_ref_zero sl (c_esz c) (c_n c) Sh Hn (params_esz c P (or_intror Op))). cbn [bind].
+    destruct (params_arr c P (or_intror Op)) as [Z|Z].
+    + rewrite (va_copy_from_zst (c_mode c) h _ (ety c) buf Z). cbn [bind of_outcome]. apply mem_ok_r_ok. reflexivity.
+    + rewrite Z, va_copy_from_n0. cbn [bind of_outcome]. apply mem_ok_r_ok. reflexivity.
+  - rewrite get_ref_zero. cbn [bind of_outcome]. rewrite (vr_store_zst h _ ZT 0 eq_refl). apply mem_ok_r_ok. reflexivity.
+  - rewrite get_ref_zero. cbn [bind of_outcome]. apply mem_ok_r_ok. reflexivity.
+  - cbn [of_outcome]. unfold nbytes18 in Sh. rewrite Op in Sh.
+    rewrite vs_copy_vs_empty by (right; exact Sh). apply mem_ok_r_ok. reflexivity.
+  - cbn [of_outcome]. unfold nbytes18 in Sh. rewrite Op in Sh.
+    rewrite vs_copy_vs_empty by (left; exact Sh). apply mem_ok_r_ok. reflexivity.
+Qed.
+
 (* the entry points for which the full checker verdict of the composed model is proved *)
 Definition covered18 (c : case18) : bool :=
   is_bytes_op (c_op c) || (is_stream_op (c_op c) && match c_layer c with LGuest => false | _ => true end).
@@ -805,6 +1005,15 @@ Proof.
     + rewrite run_mem_bytes_sr by (auto; congruence). apply mem_ok_r_ok. reflexivity.
     + rewrite run_mem_bytes_g by auto. apply mem_ok_r_ok. reflexivity.
   - apply andb_true_iff in S. destruct S as [S L]. apply run_mem_stream_sr; auto. destruct (c_layer c); congruence.
+Qed.
+(* the full statement: every entry point, every layer *)
+Lemma model_ok_lemma c : wf_case c = true -> ok_C18 c (run_C18 c) = true.
+Proof.
+  intros W. destruct (covered18 c) eqn:C; [apply model_ok_partial_lemma; assumption|].
+  apply ok_of_mem_ok; [exact W|]. unfold covered18 in C. apply orb_false_iff in C. destruct C as [Bf C].
+  destruct (is_stream_op (c_op c)) eqn:S.
+  - destruct (c_layer c) eqn:L; try discriminate. apply run_mem_stream_g; assumption.
+  - apply run_mem_acc; assumption.
 Qed.
 Lemma model_no_marks_lemma c : wf_case c = true -> o_dirty (run_C18 c) = [].
 Proof. intros W. apply model_no_marks. apply wf_params. exact W. Qed.
